@@ -28,6 +28,7 @@ type c3Part struct {
 	Lit string
 	Grp int  // 0: literal
 	Esc bool // write every character of Lit as \c
+	All bool // {0}: the whole match
 }
 type c3Tpl []c3Part
 
@@ -35,6 +36,10 @@ type c3Tpl []c3Part
 func (t c3Tpl) rare() string {
 	var sb strings.Builder
 	for _, p := range t {
+		if p.All {
+			sb.WriteString("{0}")
+			continue
+		}
 		if p.Grp > 0 {
 			fmt.Fprintf(&sb, "{%d}", p.Grp)
 			continue
@@ -64,6 +69,12 @@ func (t c3Tpl) rare() string {
 func (t c3Tpl) eval(groups []string) string {
 	var sb strings.Builder
 	for _, p := range t {
+		if p.All {
+			if len(groups) > 0 {
+				sb.WriteString(groups[0])
+			}
+			continue
+		}
 		if p.Grp > 0 {
 			if p.Grp < len(groups) {
 				sb.WriteString(groups[p.Grp])
@@ -112,6 +123,7 @@ type c3Scenario struct {
 	HasCSV  bool
 	KeepCols int  // spark-trunc: --cols
 	ColsDesc bool // spark-trunc: --sort-cols text:reverse
+	NoMatcher bool // no -m/-d on the command line: every line matches as a whole ({0})
 	OneByOne bool // equality only demanded between 1-reader-1-worker variants (not used by the order-insensitive commands)
 }
 
@@ -208,6 +220,20 @@ func c3GenScenario(t *simrt.Tape) *c3Scenario {
 		sc.Tpls = []c3Tpl{c3KeyTpl(t, 1)}
 		if inc {
 			sc.Tpls = append(sc.Tpls, c3Tpl{{Grp: 3}})
+		}
+		if t.WBool(1, 4) {
+			// the default matcher: no -m, the whole line is the match
+			sc.NoMatcher, sc.Ignore = true, ""
+			sc.Tpls = []c3Tpl{{{All: true}}}
+			if t.WBool(1, 2) {
+				sc.Tpls = []c3Tpl{{{Lit: "k="}, {All: true}}}
+			}
+			for i := range sc.Lines {
+				if sc.Lines[i].Raw == "" {
+					sc.Lines[i].Raw = "(empty)"
+				}
+				sc.Lines[i].G = []string{sc.Lines[i].Raw}
+			}
 		}
 		sc.Flags = append(common, "histo", "-n", "1000", "--sort", []string{"value", "text", "text:reverse", "value:reverse"}[t.W(4)])
 		if t.WBool(1, 3) {
@@ -564,7 +590,9 @@ func c3RunVariant(rc *RunCtx, sc *c3Scenario, v *c3Variant) *c3Out {
 		}
 	}
 	args := append([]string{}, sc.Flags...)
-	args = append(args, "-m", sc.Regex)
+	if !sc.NoMatcher {
+		args = append(args, "-m", sc.Regex)
+	}
 	if sc.Kind == "json-key" {
 		args = append(args, "-e", "{.}")
 	}
@@ -644,7 +672,7 @@ func c3Desc(sc *c3Scenario) map[string]any {
 		}
 		ls = append(ls, l.Raw)
 	}
-	return map[string]any{"kind": sc.Kind, "flags": sc.Flags, "regex": sc.Regex, "extract": tp, "ignore_group1": sc.Ignore, "lines": len(sc.Lines), "first_lines": ls}
+	return map[string]any{"kind": sc.Kind, "flags": sc.Flags, "regex": sc.Regex, "no_matcher": sc.NoMatcher, "extract": tp, "ignore_group1": sc.Ignore, "lines": len(sc.Lines), "first_lines": ls}
 }
 
 func init() {
